@@ -70,15 +70,8 @@ pub fn run_cmd(program: &str, args: &[String], stdin: Option<&[u8]>, stack_limit
                 Ok(())
             });
         }
-    } else {
-        unsafe {
-            cmd.pre_exec(|| {
-                let zero = libc::rlimit { rlim_cur: 0, rlim_max: 0 };
-                libc::setrlimit(libc::RLIMIT_CORE, &zero);
-                Ok(())
-            });
-        }
     }
+    // (without a stack limit no pre_exec hook is installed, so std can use the fast posix_spawn path)
     let mut child = match cmd.spawn() {
         Ok(c) => c,
         Err(e) => {
@@ -105,6 +98,7 @@ pub fn run_cmd(program: &str, args: &[String], stdin: Option<&[u8]>, stack_limit
     });
     let start = Instant::now();
     let mut timed_out = false;
+    let mut polls = 0u32;
     let status = loop {
         match child.try_wait() {
             Ok(Some(s)) => break Some(s),
@@ -114,7 +108,8 @@ pub fn run_cmd(program: &str, args: &[String], stdin: Option<&[u8]>, stack_limit
                     timed_out = true;
                     break child.wait().ok();
                 }
-                std::thread::sleep(Duration::from_millis(2));
+                polls += 1;
+                std::thread::sleep(if polls < 100 { Duration::from_micros(200) } else { Duration::from_millis(2) });
             }
             Err(_) => break None,
         }
